@@ -246,27 +246,50 @@ func genC20(seed uint64, tier string) *Scenario {
 		c := members[r.Intn(len(members))]
 		switch x := r.Intn(20); {
 		case x < 11:
-			var qs []QuadSpec
-			for k := 1 + r.Intn(3); k > 0; k-- {
-				var ce pt
-				switch {
-				case len(pool) > 0 && r.Bool(0.55):
-					b := pool[r.Intn(len(pool))]
-					ce = pt{b.x + float32(r.Intn(5)-2)*0.25, b.y + float32(r.Intn(5)-2)*0.2, b.z + float32(r.Intn(5)-2)*0.25}
-				default:
-					ce = pt{coord(), float32(r.Intn(5)-2) * 0.5, coord()}
+			mk := func() []QuadSpec {
+				var qs []QuadSpec
+				for k := 1 + r.Intn(3); k > 0; k-- {
+					var ce pt
+					switch {
+					case len(pool) > 0 && r.Bool(0.55):
+						b := pool[r.Intn(len(pool))]
+						ce = pt{b.x + float32(r.Intn(5)-2)*0.25, b.y + float32(r.Intn(5)-2)*0.2, b.z + float32(r.Intn(5)-2)*0.25}
+					default:
+						ce = pt{coord(), float32(r.Intn(5)-2) * 0.5, coord()}
+					}
+					ex := []float32{0.1, 0.25, 0.5, 0.75, 1, 1.5, 2.5, 4}[r.Intn(8)]
+					ez := []float32{0.1, 0.25, 0.5, 0.75, 1, 1.5, 2.5, 4}[r.Intn(8)]
+					if math.Abs(float64(ce.x))+float64(ex) > 64 || math.Abs(float64(ce.z))+float64(ez) > 64 {
+						continue
+					}
+					pool = append(pool, ce)
+					cc := ce
+					lastC = &cc
+					qs = append(qs, QuadSpec{C: [3]float32{ce.x, ce.y, ce.z}, E: [3]float32{ex, 0, ez}})
 				}
-				ex := []float32{0.1, 0.25, 0.5, 0.75, 1, 1.5, 2.5, 4}[r.Intn(8)]
-				ez := []float32{0.1, 0.25, 0.5, 0.75, 1, 1.5, 2.5, 4}[r.Intn(8)]
-				if math.Abs(float64(ce.x))+float64(ex) > 64 || math.Abs(float64(ce.z))+float64(ez) > 64 {
-					continue
-				}
-				pool = append(pool, ce)
-				cc := ce
-				lastC = &cc
-				qs = append(qs, QuadSpec{C: [3]float32{ce.x, ce.y, ce.z}, E: [3]float32{ex, 0, ez}})
+				return qs
 			}
-			if len(qs) > 0 {
+			qs := mk()
+			if len(qs) > 0 && len(members) >= 2 && r.Bool(0.25) {
+				// two or three members sample at the same instant (outside the statement's
+				// quantifier; the index must still be complete afterwards)
+				g.nextBlk++
+				g.steps = append(g.steps, Step{Conn: c, Op: "quad_sample", Quads: qs, Block: g.nextBlk})
+				perm := r.Perm(len(members))
+				extra := 0
+				for _, pi := range perm {
+					if members[pi] == c || extra >= 2 {
+						continue
+					}
+					if q2 := mk(); len(q2) > 0 {
+						g.steps = append(g.steps, Step{Conn: members[pi], Op: "quad_sample", Quads: q2, Block: g.nextBlk})
+						extra++
+					}
+					if r.Bool(0.5) {
+						break
+					}
+				}
+			} else if len(qs) > 0 {
 				g.steps = append(g.steps, Step{Conn: c, Op: "quad_sample", Quads: qs})
 			}
 		case x < 13:
